@@ -22,8 +22,9 @@ THEOREMS = ['CC.C05_tellegen', 'CC.tellegen_of_kvl_kcl', 'CC.C05_instant', 'CC.C
 THEOREMS += ['CC.C05_gen_network_power', 'CC.C05_gen_dc_real', 'CC.C05_gen_dc_power', 'CC.C05_gen_peak', 'CC.C05_gen_rms',
     'CC.C05_gen_peak_power', 'CC.C05_gen_rms_power', 'CC.C05_gen_modes_agree', 'CC.C05_gen_time_function',
     'CC.C05_gen_time_power', 'CC.C05_gen_transient_power', 'CC.C05_gen_series']
-LEAN_MODULE_EXTRA = ['CC.Properties.C05Gen']
-OPEN_STATEMENTS = ['composition of C05_instant with C09_kcl_instant / C12_kcl_sample inside Lean (the hypotheses of C05_instant are exactly their conclusions)']
+LEAN_MODULE_EXTRA = ['CC.Properties.C05Gen', 'CC.Properties.C05Compose']
+THEOREMS += ['CC.C05_transient_sample', 'CC.C05_periodic_steady', 'CC.C05_superposed', 'CC.C05_time_domain', 'CC.superpose_reLine_v']
+OPEN_STATEMENTS = []
 ASSUMPTIONS = ['binary64 ≈ field arithmetic within 1e-9 relative', 'scipy.signal.lsim (transient samples) is a parameter']
 
 def network_case(ctx, out, desc):
